@@ -7,12 +7,12 @@
    targets, memory image of eval.Coefficients).
 
    What is NOT proved here: float64 is modelled by the real numbers (assumption float64_real_gap in the
-   evidence), and the universally quantified "no int16 overflow on valid positions" (C19_no_wrap_statement
-   below; evaluated on every case of stream c19z instead). *)
+   evidence).  "No int16 overflow on valid positions" is C19_no_wrap below (it is also evaluated on every
+   case of stream c19z). *)
 From Coq Require Import NArith ZArith List Bool String Reals.
 From Chess3 Require Import Base.Bits Model.Types Model.BoardDef Gen.Coeffs Gen.CoeffShape
   Model.Eval Model.EvalU Model.EvalR Model.Vector Spec.Chess Spec.Rep
-  Proofs.VectorTree Proofs.VectorFields Proofs.EvalMorph Proofs.EvalEnvelope.
+  Proofs.VectorTree Proofs.VectorFields Proofs.EvalMorph Proofs.EvalEnvelope Proofs.EvalBound Proofs.EvalNoWrap.
 Import ListNotations.
 Local Notation length := List.length.
 
@@ -136,23 +136,52 @@ Theorem C19_envelope_partial_no_wrap : forall b,
 Proof. exact envelope_no_wrap. Qed.
 Print Assumptions C19_envelope_partial_no_wrap.
 
-(* the full statement and the one obligation that separates it from what is proved *)
+(* no int16 overflow: with the shipped coefficients every accumulator of the integer evaluation stays
+   inside int16 on every valid position (Proofs/EvalBound.v: each accumulator is bounded by
+   sum (range of a generated table row) x (number of men of the kind); Proofs/EvalNoWrap.v: the counts obey
+   the material rule of [valid], the table ranges are evaluated for Gen/Coeffs.v).  Re-checked against the
+   regenerated coefficients on every run; a retuning whose worst case no longer fits makes it fail. *)
+Theorem C19_no_wrap : forall b,
+  Rep b -> valid (abs b) = true -> (0 <= fifty b <= 200)%Z -> no_wrap Coefficients b = true.
+Proof. exact no_wrap_valid. Qed.
+Print Assumptions C19_no_wrap.
+
+(* the accumulator ranges behind it (sp.mg[c] / sp.eg[c] at taperedScore, ka.score[ph][c] at addKingAttacks);
+   tot s c l = total ops_U s c l, main_lo = -8000, main_hi = 24000 *)
+Theorem C19_accumulator_ranges : forall b, Rep b -> valid (abs b) = true -> forall c,
+  (main_lo <= tot MG c (all_terms ops_U Coefficients b) <= main_hi)%Z /\
+  (main_lo <= tot EG c (all_terms ops_U Coefficients b) <= main_hi)%Z /\
+  (-8000 <= tot KA0 c (pre_terms ops_U Coefficients b) <= 8000)%Z /\
+  (-8000 <= tot KA1 c (pre_terms ops_U Coefficients b) <= 8000)%Z.
+Proof.
+  intros b HR HV c.
+  exact (conj (main_acc_bound b HR HV MG c eq_refl) (conj (main_acc_bound b HR HV EG c eq_refl)
+        (conj (ka_acc_bound b HR HV KA0 c eq_refl) (ka_acc_bound b HR HV KA1 c eq_refl)))).
+Qed.
+Print Assumptions C19_accumulator_ranges.
+
+(* THE ENVELOPE: for every valid position with a halfmove clock the FEN parser admits, the real-number
+   evaluation with the converted shipped coefficients is within 2 (< 2.25) centipawns of the engine's int16
+   evaluation, white-relative.  (float64 is modelled by the reals: assumption float64_real_gap.) *)
 Definition C19_envelope_statement : Prop := forall b,
   Rep b -> valid (abs b) = true -> (0 <= fifty b <= 100)%Z ->
   Rabs (white_rel_R b (eval_R coeffs_R b) - IZR (white_rel_Z b (eval_Z Coefficients b))) < 225 / 100.
 
-Definition C19_no_wrap_statement : Prop := forall b,
-  Rep b -> valid (abs b) = true -> no_wrap Coefficients b = true.
+Theorem C19_envelope_sharp : forall b, Rep b -> valid (abs b) = true -> (0 <= fifty b <= 200)%Z ->
+  Rabs (white_rel_R b (eval_R coeffs_R b) - IZR (white_rel_Z b (eval_Z Coefficients b))) < 2.
+Proof. intros b Hr Hv Hf. apply envelope_no_wrap; [exact Hf | exact (no_wrap_valid b Hr Hv Hf)]. Qed.
+Print Assumptions C19_envelope_sharp.
 
-Theorem C19_envelope_partial_reduction : C19_no_wrap_statement -> C19_envelope_statement.
+Theorem C19_envelope : C19_envelope_statement.
 Proof.
-  intros H b Hr Hv Hf. apply Rlt_trans with 2.
-  - apply envelope_no_wrap; [destruct Hf; split; [assumption | apply Z.le_trans with 100%Z; [assumption | discriminate]] | exact (H b Hr Hv)].
+  intros b Hr Hv Hf. apply Rlt_trans with 2.
+  - apply C19_envelope_sharp; [exact Hr | exact Hv |].
+    destruct Hf; split; [assumption | apply Z.le_trans with 100%Z; [assumption | discriminate]].
   - apply Rmult_lt_reg_r with 100; [apply IZR_lt; reflexivity|].
     unfold Rdiv. rewrite Rmult_assoc, Rinv_l by (apply not_0_IZR; discriminate).
     rewrite Rmult_1_r, <- mult_IZR. apply IZR_lt. reflexivity.
 Qed.
-Print Assumptions C19_envelope_partial_reduction.
+Print Assumptions C19_envelope.
 
 (* non-vacuity: a middlegame position (r4rk1/1pp1qppp/p1np1n2/2b1p1B1/2B1P1b1/P1NP1N2/1PP1QPPP/R4RK1 w - - 0 10)
    meets the hypotheses of C19_envelope_partial_no_wrap; its integer evaluation is 19 *)
